@@ -3,13 +3,16 @@
 package binutils
 
 import (
+	"debug/elf"
 	"errors"
 	"strconv"
+	"sync"
 )
 
 func init() {
 	vRegister("VerifC13NMLookup", VerifC13NMLookup)
 	vRegister("VerifC13Addr2LineNM", VerifC13Addr2LineNM)
+	vRegister("VerifC20BaseOnce", VerifC20BaseOnce)
 }
 
 // VerifC13NMLookup: looking an address up in a sorted symbol table returns the
@@ -128,4 +131,44 @@ func VerifC13Addr2LineNM() {
 	vAssert(len(rw.written) == 2 && vStrEq(rw.written[0], strconv.FormatUint(addr-base, 16)), "C13.a2l.query: addr2line was not asked about the runtime address minus the base")
 	vAssert(stack[0].Func == "target_long_name", "C13.a2l.nm: the nm table (run-time addresses) was not consulted with the run-time address")
 	vObserve(stack[0].Func, stack[0].Line)
+}
+
+// VerifC20BaseOnce (property C20): two goroutines symbolize addresses through
+// the same file object; the base is computed once and both see it.
+func VerifC20BaseOnce() {
+	vRaceDetect()
+	phs := vC13Layout(1, 0)
+	x := phs[0]
+	bpg := vUint64("biaspg")
+	vAssume(bpg < uint64(1)<<35)
+	vAssume(bpg >= 16) // a user-space bias (keeps clear of the recorded kernel-heuristic finding)
+	bias := bpg << 12
+	vAssume(x.Off >= vPage) // bias != page offset of the segment
+	vAssume(x.Off>>12 != bpg)
+	start := bias + vPageDown(x.Vaddr)
+	limit := bias + vPageUp(x.Vaddr+x.Filesz)
+	offset := vPageDown(x.Off)
+	a1, a2 := vUint64("addr1"), vUint64("addr2")
+	for _, a := range []uint64{a1, a2} {
+		vAssume(start <= a)
+		vAssume(a < limit)
+		vAssume(x.Vaddr <= a-bias)
+		vAssume(a-bias < x.Vaddr+x.Filesz)
+	}
+	ef := &elf.File{FileHeader: elf.FileHeader{Type: elf.ET_DYN}, Progs: []*elf.Prog{{ProgHeader: x}}}
+	saved := elfOpen
+	opens := 0
+	elfOpen = func(string) (*elf.File, error) { opens++; return ef, nil }
+	defer func() { elfOpen = saved }()
+	f := &file{name: "f", m: &elfMapping{start: start, limit: limit, offset: offset}}
+	var wg sync.WaitGroup
+	wg.Add(2)
+	var r1, r2 uint64
+	var e1, e2 error
+	go func() { defer wg.Done(); r1, e1 = f.ObjAddr(a1) }()
+	go func() { defer wg.Done(); r2, e2 = f.ObjAddr(a2) }()
+	wg.Wait()
+	vAssert(e1 == nil && e2 == nil, "C20.baseonce.err: concurrent ObjAddr failed")
+	vAssert(r1 == a1-bias && r2 == a2-bias, "C20.baseonce.addr: concurrent ObjAddr results differ from the sequential ones")
+	vAssert(opens == 1, "C20.baseonce.twice: the base was computed more than once")
 }
